@@ -32,6 +32,15 @@ type Server struct {
 	settingsMu            sync.RWMutex
 	supportsConfiguration bool
 	payeeTemplatesCache   sync.Map // map[protocol.DocumentURI]map[string][]analyzer.PostingTemplate
+
+	// docVersions holds, for every open document, the sequence number of the
+	// didOpen/didChange notification that produced its current content. A
+	// diagnostics task publishes only while the number it captured is still the
+	// current one, so a slow task never overwrites the diagnostics of newer content.
+	docVerMu    sync.Mutex // guards docSeq and docVersions; never held across a call
+	docSeq      uint64
+	docVersions map[protocol.DocumentURI]uint64
+	publishMu   sync.Mutex // makes "still current?" and the publish one atomic step
 }
 
 func NewServer() *Server {
@@ -169,7 +178,8 @@ func (s *Server) Exit(ctx context.Context) error {
 
 func (s *Server) DidOpen(ctx context.Context, params *protocol.DidOpenTextDocumentParams) error {
 	s.documents.Store(params.TextDocument.URI, params.TextDocument.Text)
-	go s.publishDiagnostics(ctx, params.TextDocument.URI, params.TextDocument.Text)
+	version := s.nextDocVersion(params.TextDocument.URI)
+	go s.publishDiagnosticsVersion(ctx, params.TextDocument.URI, params.TextDocument.Text, version)
 	return nil
 }
 
@@ -225,7 +235,8 @@ func (s *Server) didChange(ctx context.Context, docURI protocol.DocumentURI, cha
 				s.loader.InvalidateFile(path)
 			}
 		}
-		go s.publishDiagnostics(ctx, docURI, content)
+		version := s.nextDocVersion(docURI)
+		go s.publishDiagnosticsVersion(ctx, docURI, content, version)
 	}
 	return nil
 }
@@ -237,6 +248,7 @@ func isFullChange(r protocol.Range) bool {
 
 func (s *Server) DidClose(ctx context.Context, params *protocol.DidCloseTextDocumentParams) error {
 	s.documents.Delete(params.TextDocument.URI)
+	s.dropDocVersion(params.TextDocument.URI)
 	tokenCache.delete(params.TextDocument.URI)
 	return nil
 }
@@ -257,17 +269,63 @@ func (s *Server) DidSave(ctx context.Context, params *protocol.DidSaveTextDocume
 	return nil
 }
 
+// nextDocVersion records that docURI has new content and returns its version.
+// Versions come from one server-wide counter, so they are never reused, not
+// even when a document is closed and opened again.
+func (s *Server) nextDocVersion(docURI protocol.DocumentURI) uint64 {
+	s.docVerMu.Lock()
+	defer s.docVerMu.Unlock()
+	s.docSeq++
+	if s.docVersions == nil {
+		s.docVersions = make(map[protocol.DocumentURI]uint64)
+	}
+	s.docVersions[docURI] = s.docSeq
+	return s.docSeq
+}
+
+func (s *Server) dropDocVersion(docURI protocol.DocumentURI) {
+	s.docVerMu.Lock()
+	defer s.docVerMu.Unlock()
+	delete(s.docVersions, docURI)
+}
+
+func (s *Server) isCurrentDocVersion(docURI protocol.DocumentURI, version uint64) bool {
+	s.docVerMu.Lock()
+	defer s.docVerMu.Unlock()
+	current, ok := s.docVersions[docURI]
+	return ok && current == version
+}
+
+// publishIfCurrent sends diagnostics computed from the given version of docURI
+// unless the document has changed (or was closed) in the meantime. publishMu is
+// held from the check to the end of the publish: a task that passed the check
+// before a newer change arrived may still publish, but the task of that newer
+// change can only publish after it, so the newest content always has the last word.
+// Version 0 means "unversioned" and is always published.
+func (s *Server) publishIfCurrent(ctx context.Context, docURI protocol.DocumentURI, version uint64, diagnostics []protocol.Diagnostic) {
+	s.publishMu.Lock()
+	defer s.publishMu.Unlock()
+	if version != 0 && !s.isCurrentDocVersion(docURI, version) {
+		return
+	}
+	_ = s.client.PublishDiagnostics(ctx, &protocol.PublishDiagnosticsParams{
+		URI:         docURI,
+		Diagnostics: diagnostics,
+	})
+}
+
 func (s *Server) publishDiagnostics(ctx context.Context, docURI protocol.DocumentURI, content string) {
+	s.publishDiagnosticsVersion(ctx, docURI, content, 0)
+}
+
+func (s *Server) publishDiagnosticsVersion(ctx context.Context, docURI protocol.DocumentURI, content string, version uint64) {
 	if s.client == nil {
 		return
 	}
 
 	settings := s.getSettings()
 	if !settings.Features.Diagnostics {
-		_ = s.client.PublishDiagnostics(ctx, &protocol.PublishDiagnosticsParams{
-			URI:         docURI,
-			Diagnostics: []protocol.Diagnostic{},
-		})
+		s.publishIfCurrent(ctx, docURI, version, []protocol.Diagnostic{})
 		return
 	}
 
@@ -302,10 +360,7 @@ func (s *Server) publishDiagnostics(ctx context.Context, docURI protocol.Documen
 		})
 	}
 
-	_ = s.client.PublishDiagnostics(ctx, &protocol.PublishDiagnosticsParams{
-		URI:         docURI,
-		Diagnostics: diagnostics,
-	})
+	s.publishIfCurrent(ctx, docURI, version, diagnostics)
 }
 
 func (s *Server) analyze(content string) []protocol.Diagnostic {
